@@ -235,6 +235,26 @@ def gen_cases(tier, seed):
             s_.pop("_cls")
             shells.append(s_)
         cases.append({"kind": "kernel", "shells": shells, "classes": [gcls, "bigK", "ls:%d%d%d%d" % ls, "L:%d" % sum(ls)], "cost": 4000})
+    # contractions normalised as in published tables: every column is unit-normalised and then rounded to 5-7 significant digits
+    # (norm = 1 +- 1e-7..1e-5); the four normalisation factors of a quartet then differ from 1 by a few 1e-6 altogether
+    for i in range(16 if tier == "quick" else 120):
+        rng = bases.rng_for("C04", seed, tier, "prenorm", i)
+        ls = [int(x) for x in rng.choice([0, 0, 1, 1, 2], size=4)]
+        centers, gcls = bases.rand_centers(rng, 4, ["coincident", "general", "collinear", "general"][i % 4], scale=0.9, offset=False)
+        if i % 3 == 0:
+            centers = [centers[0], centers[0], centers[1], centers[1]]  # two atoms
+        shells = []
+        for l, c in zip(ls, centers):
+            s_ = bases.rand_shell(rng, l, K=int(rng.integers(2, 4)), M=int(rng.integers(1, 3)), t=str(rng.choice(["c", "p"])), center=c, emin=0.15, emax=8.0, ecls="log")
+            s_.pop("_cls")
+            s_["k"] = bases.prenormalise(l, s_["e"], [[abs(v) + 0.2 for v in row] for row in s_["k"]], int(rng.integers(5, 8)))
+            shells.append(s_)
+        if i % 4 == 1:
+            shells = [shells[0], dict(shells[0]), shells[2], dict(shells[2])]  # (aa|bb): the same tabulated shell twice in each pair
+        cases.append({"kind": "kernel", "shells": [dict(s_, t="c") for s_ in shells], "classes": [gcls, "coef:prenormalised-5-7-digits", "ls:%d%d%d%d" % tuple(s_["l"] for s_ in shells)], "cost": 80})
+        if i % 2 == 0:
+            cases.append({"kind": "whole", "shells": shells[:2] if i % 4 else [shells[0], shells[2]], "classes": [gcls, "coef:prenormalised-5-7-digits", "whole:nsh2", "types:" + "".join(s_["t"] for s_ in (shells[:2] if i % 4 else [shells[0], shells[2]]))],
+                          "cost": 200})
     # long contractions: 17..33 primitives in one shell (ANO / even-tempered style)
     for i in range(6 if tier == "quick" else 40):
         rng = bases.rng_for("C04", seed, tier, "longK", i)
